@@ -582,7 +582,7 @@ class Evaluator:
                     if not seq:
                         if "default" in kw:
                             return kw["default"]
-                        raise Unsupported(f"{fn.id}() of an empty sequence (ValueError at run time)")
+                        raise PyRaise("ValueError")  # max() / min() of an empty sequence
                     best = seq[0]
                     for x in seq[1:]:
                         better = self.compare(ast.Gt() if fn.id == "max" else ast.Lt(), x, best)
@@ -682,17 +682,19 @@ class Evaluator:
                 if r is not _MISSING:
                     return r
             # a callable abstract value (e.g. an opcode class looked up in a table): evaluate the callee expression
+            why = ""
             try:
                 callee = self.ev(fn)
-            except Unsupported:
+            except Unsupported as ex:
                 callee = None
+                why = f" ({ex})"
             if callee is not None and hasattr(callee, "sa_call"):
                 args = self.ev_args(e)
                 kw = {k.arg: self.ev(k.value) for k in e.keywords if k.arg}
                 return callee.sa_call(args, kw)
             if isinstance(callee, (PyIter, list, tuple, dict, set, frozenset, str, bytes, int, float)) and not isinstance(callee, Record):
                 raise PyRaise("TypeError")  # a value of this type is not callable
-            raise Unsupported(f"call {ast.unparse(e)[:40]}")
+            raise Unsupported(f"call {ast.unparse(e)[:40]}{why}")
         raise Unsupported(f"expression {type(e).__name__}")
 
     def _bind_target(self, t: ast.AST, item):
